@@ -156,6 +156,13 @@ type tsmGeneration struct {
 	id            int
 	files         []FileStat
 	parseFileName ParseFileNameFunc
+
+	// inUse is set by findGenerations(skipInUse=true) when a file of the generation is
+	// part of a compaction plan that has not been released.  Such a generation cannot be
+	// planned, and it also separates the generations before it from those after it: a
+	// group spanning it would write its output after it, so that older data of the group
+	// would shadow the data of the generation it jumped over.
+	inUse bool
 }
 
 func newTsmGeneration(id int, parseFileNameFunc ParseFileNameFunc) *tsmGeneration {
@@ -255,9 +262,19 @@ func (c *DefaultPlanner) PlanLevel(level int) []CompactionGroup {
 	for i := 0; i < len(generations); i++ {
 		cur := generations[i]
 
+		// A generation that is being compacted ends the current group: the generations
+		// on either side of it must not be compacted together.
+		if cur.inUse {
+			if len(currentGen) > 0 {
+				groups = append(groups, currentGen)
+				currentGen = tsmGenerations{}
+			}
+			continue
+		}
+
 		// See if this generation is orphan'd which would prevent it from being further
 		// compacted until a final full compactin runs.
-		if i < len(generations)-1 {
+		if i < len(generations)-1 && !generations[i+1].inUse {
 			if cur.level() < generations[i+1].level() {
 				currentGen = append(currentGen, cur)
 				continue
@@ -351,6 +368,16 @@ func (c *DefaultPlanner) PlanOptimize() []CompactionGroup {
 	for i := 0; i < len(generations); i++ {
 		cur := generations[i]
 
+		// A generation that is being compacted ends the current group: the generations
+		// on either side of it must not be compacted together.
+		if cur.inUse {
+			if len(currentGen) > 0 {
+				groups = append(groups, currentGen)
+				currentGen = tsmGenerations{}
+			}
+			continue
+		}
+
 		// Skip the file if it's over the max size and contains a full block and it does not have any tombstones
 		if cur.count() > 2 && cur.size() > uint64(maxTSMFileSize) && c.FileStore.BlockCount(cur.files[0].Path, 1) == tsdb.DefaultMaxPointsPerBlock && !cur.hasTombstones() {
 			continue
@@ -358,7 +385,7 @@ func (c *DefaultPlanner) PlanOptimize() []CompactionGroup {
 
 		// See if this generation is orphan'd which would prevent it from being further
 		// compacted until a final full compactin runs.
-		if i < len(generations)-1 {
+		if i < len(generations)-1 && !generations[i+1].inUse {
 			if cur.level() < generations[i+1].level() {
 				currentGen = append(currentGen, cur)
 				continue
@@ -423,6 +450,12 @@ func (c *DefaultPlanner) Plan(lastWrite time.Time) []CompactionGroup {
 
 	// first check if we should be doing a full compaction because nothing has been written in a long time
 	if forceFull || c.compactFullWriteColdDuration > 0 && time.Since(lastWrite) > c.compactFullWriteColdDuration && len(generations) > 1 {
+
+		// A full compaction cannot include generations that are being compacted and must
+		// not jump over them either.  Wait until they have been released.
+		if generations.anyInUse() {
+			return nil
+		}
 
 		// Reset the full schedule if we planned because of it.
 		if forceFull {
@@ -550,8 +583,9 @@ func (c *DefaultPlanner) Plan(lastWrite time.Time) []CompactionGroup {
 			lvl := gen.level()
 
 			// Skip compacting this group if there happens to be any lower level files in the
-			// middle.  These will get picked up by the level compactors.
-			if lvl <= 3 {
+			// middle.  These will get picked up by the level compactors.  A generation that is
+			// being compacted cannot be part of the group nor be jumped over.
+			if lvl <= 3 || gen.inUse {
 				skipGroup = true
 				break
 			}
@@ -611,9 +645,9 @@ func (c *DefaultPlanner) Plan(lastWrite time.Time) []CompactionGroup {
 }
 
 // findGenerations groups all the TSM files by generation based
-// on their filename, then returns the generations in descending order (newest first).
-// If skipInUse is true, tsm files that are part of an existing compaction plan
-// are not returned.
+// on their filename, then returns the generations in ascending order (oldest first).
+// If skipInUse is true, generations with tsm files that are part of an existing
+// compaction plan are marked inUse.
 func (c *DefaultPlanner) findGenerations(skipInUse bool) tsmGenerations {
 	c.mu.Lock()
 	defer c.mu.Unlock()
@@ -622,6 +656,7 @@ func (c *DefaultPlanner) findGenerations(skipInUse bool) tsmGenerations {
 	lastGen := c.lastGenerations
 
 	if !last.IsZero() && c.FileStore.LastModified().Equal(last) {
+		c.markInUse(lastGen, skipInUse)
 		return lastGen
 	}
 
@@ -630,11 +665,6 @@ func (c *DefaultPlanner) findGenerations(skipInUse bool) tsmGenerations {
 	generations := make(map[int]*tsmGeneration, len(tsmStats))
 	for _, f := range tsmStats {
 		gen, _, _ := c.ParseFileName(f.Path)
-
-		// Skip any files that are assigned to a current compaction plan
-		if _, ok := c.filesInUse[f.Path]; skipInUse && ok {
-			continue
-		}
 
 		group := generations[gen]
 		if group == nil {
@@ -655,7 +685,26 @@ func (c *DefaultPlanner) findGenerations(skipInUse bool) tsmGenerations {
 	c.lastFindGenerations = genTime
 	c.lastGenerations = orderedGenerations
 
+	c.markInUse(orderedGenerations, skipInUse)
 	return orderedGenerations
+}
+
+// markInUse marks the generations that have a file assigned to a current compaction plan.
+// The planners do not plan these generations and do not group generations across them.
+// c.mu must be held.
+func (c *DefaultPlanner) markInUse(generations tsmGenerations, skipInUse bool) {
+	for _, g := range generations {
+		g.inUse = false
+		if !skipInUse {
+			continue
+		}
+		for _, f := range g.files {
+			if _, ok := c.filesInUse[f.Path]; ok {
+				g.inUse = true
+				break
+			}
+		}
+	}
 }
 
 func (c *DefaultPlanner) acquire(groups []CompactionGroup) bool {
@@ -2092,6 +2141,15 @@ type tsmGenerations []*tsmGeneration
 func (a tsmGenerations) Len() int           { return len(a) }
 func (a tsmGenerations) Less(i, j int) bool { return a[i].id < a[j].id }
 func (a tsmGenerations) Swap(i, j int)      { a[i], a[j] = a[j], a[i] }
+func (a tsmGenerations) anyInUse() bool {
+	for _, g := range a {
+		if g.inUse {
+			return true
+		}
+	}
+	return false
+}
+
 func (a tsmGenerations) hasTombstones() bool {
 	for _, g := range a {
 		if g.hasTombstones() {
